@@ -288,8 +288,12 @@ func (w *World) Judge(conn int, m wire.Msg) Verdict {
 			rs = append(rs, rej("bad-name", EINVAL))
 		}
 		dirOp(f)
-		if dontCare() || (t != nil && (t.Fenced || t.X != 0)) {
+		if dontCare() || (t != nil && t.X != 0) {
 			return Verdict{DontCare: true}
+		}
+		if t != nil && t.Fenced {
+			// linking is path-dependent in its target as well
+			rs = append(rs, rej("fenced-link-target", EINVAL))
 		}
 		return fwd(wire.Rlink)
 	case wire.Tunlinkat:
@@ -393,6 +397,12 @@ func (w *World) Judge(conn int, m wire.Msg) Verdict {
 		if f.X == 2 {
 			if f.XBuf != f.XSize {
 				return rejAny("xattr-create-size-mismatch", EINVAL)
+			}
+			if f.Fenced {
+				// the entry was unlinked or overwritten after Txattrcreate:
+				// committing the attribute is a path-dependent operation
+				// through a fenced fid (the fid is clunked all the same)
+				return rejAny("xattr-create-commit-through-fenced-fid", EINVAL)
 			}
 			return Verdict{Forward: true, Success: wire.Rclunk}
 		}
